@@ -224,6 +224,12 @@ def run_case(case):
     case["cfg"] = cfg0
     A, b, x0, lam, lo, hi, cfg = build_instance(cfg0)
     n = cfg["n"]
+    upper_only = bool(cfg.get("lower") is not None and not cfg.get("scaling") and cfg["reg"] == "l1" and case["i"] % 7 == 3 and case["i"] % 5 != 4)
+    if upper_only:
+        # one-sided bounds in their documented calling form bounds=(None, upper): the lower side is dropped from the problem (and from
+        # the reference), the upper side must still be honoured
+        lo = np.full(n, -np.inf)
+        st["upper_only_runs"] = 1
     if case.get("noref"):
         Fstar, xstar, cert = None, None, False
         st["cases_without_reference"] = 1
@@ -256,7 +262,7 @@ def run_case(case):
     lh = lam * np.sqrt(n) if cfg["reg"] == "l1" else lam
     kw = dict(h=h, lh=lh, prox_uh=prox, argsh=argsh, argsprox=argsprox)
     if cfg.get("lower") is not None:
-        kw["bounds"] = (lo.copy(), hi.copy())
+        kw["bounds"] = (None, hi.copy()) if upper_only else (lo.copy(), hi.copy())
     box_as_projection = bool(cfg.get("lower") is not None and not cfg.get("scaling") and case["i"] % 5 == 4)
     if box_as_projection:
         # the same box handed over as a projection instead of as bounds: the regularised step and the criticality measure then take
